@@ -76,6 +76,15 @@ def bases(tier):
             "tasks": [{"id": "hold", "effort": 600, "alloc": ["dev"], "prio": 900}, {"id": "b", "effort": 300, "alloc": ["dev"], "alt": ["zed", "amy"]},
                       {"id": "f", "effort": 200, "alloc": ["amy"], "prio": 300}, {"id": "s", "effort": 200, "alloc": ["zed"], "prio": 300}]}
     out.append(alts)
+    # dependency lists that mix plain entries and entries with options, the plain predecessor binding
+    for mode in ("asap", "alap"):
+        leaf = lambda i, m, r="r1", **kw: {"id": i, "effort": m, "alloc": [r], **kw}  # noqa: E731
+        mixed = {"dur": "4w", "alap": mode != "asap", "resources": [{"id": "r1"}, {"id": "r2"}],
+                 "tasks": [leaf("a", 120), leaf("b", 300, "r2"), leaf("c", 90, deps=["b", {"ref": "a", "gap": "2h"}]),
+                           leaf("d", 60, "r2", deps=[{"ref": "a", "gap": "1d"}, "c"])]}
+        if mode == "asap":
+            mixed["tasks"].append(leaf("e", 45, "r2", deps=["d", {"ref": "b", "onstart": True}]))
+        out.append(mixed)
     return out
 
 
@@ -170,6 +179,12 @@ def rewrites_spec(spec):
                     opts = {k: v for k, v in d.items() if k in ("gap", "onstart") and v} if isinstance(d, dict) else {}
                     find(s3["tasks"], target).setdefault("prec", []).append({"ref": fid, **opts} if opts else fid)
                     yield f"precedes {target}->{fid}", s3, {}
+    # the order of the entries of one depends list
+    for fid in deps.order:
+        if len(deps.node[fid].get("deps") or []) > 1:
+            s2 = copy.deepcopy(spec)
+            find(s2["tasks"], fid)["deps"].reverse()
+            yield f"reorder-deps {fid}", s2, {}
     # shift reference <-> inline hours
     for full, r, _p in render.walk_resources(spec.get("resources")):
         if r.get("shift"):
@@ -304,7 +319,7 @@ def universe(tier):
         yield {"bi": bi, "kind": "orig"}
         for name, _s2, _m in rewrites_spec(spec):
             yield {"bi": bi, "kind": "spec", "name": name}
-        for name, _t in text_rewrites(text, tier, dense=(bi in (1, len(bs) - 3, len(bs) - 2) or tier == "thorough")):
+        for name, _t in text_rewrites(text, tier, dense=(bi in (1, len(bs) - 5, len(bs) - 4, len(bs) - 2) or tier == "thorough")):
             yield {"bi": bi, "kind": "text", "name": name}
 
 
